@@ -34,7 +34,7 @@ COMPONENTS_STUB = ["set iteration order of Grammar symbol sets (OrderedSimSet); 
 ASSUMPTIONS = ["tree-depth mode (expansion_depthing=False)", "minimum depth = depth of the shallowest derivable program; lists may be empty when their size refinement allows it",
                "productions of A = registered classes whose first base is A"]
 
-FEAT = features(list=2, annlist=2, union=2, tuple=2, nested=2, unreachable=2, standalone=2, cls=8, refined=2, plain=2, concrete_start=1, bool=2)
+FEAT = features(list=2, annlist=2, union=2, tuple=2, nested=2, unreachable=2, standalone=2, cls=8, refined=2, plain=2, concrete_start=1, bool=2, nested_generic=1)
 
 
 def budget(tier):
@@ -100,8 +100,9 @@ def compare(ctx, spec, b, ref, g, tag):
             ctx.violate(f"C05/productions/{'missing' if set(want) - set(got) else 'extra'}", f"{tag}: productions of {n} = {got}, direct registered subtypes = {want}")
             return a
     # minimum depths
-    minds = ref.minds()
-    libc = ref.lib_like_minds()
+    expansion = bool(spec.get("expansion_depthing"))
+    minds = ref.minds_expansion() if expansion else ref.minds()
+    libc = minds if expansion else ref.lib_like_minds()
     for n in sorted(reg):
         got = a["distance"].get(n)
         want = minds[n]
@@ -117,7 +118,7 @@ def compare(ctx, spec, b, ref, g, tag):
                 # the library's documented convention: a list is assumed to need one element (conservative)
                 sig = f"C05/mindepth/{direction}/field-kind={cause}"
             else:
-                sig = f"C05/mindepth/{direction}/field-kind={cause}/beyond-the-one-element-list-convention"
+                sig = f"C05/mindepth/{direction}/field-kind={cause}/{'expansion-depthing' if expansion else 'beyond-the-one-element-list-convention'}"
             ctx.violate(sig, f"{tag}: minimum depth of {n} reported {got}, shallowest derivable program has depth {want} "
                              f"(one-element-list convention: {libc[n]}); fields={ref.cls[n]['fields']}")
             break
@@ -213,7 +214,13 @@ def check_usable(ctx, spec, b, ref, g, tag):
 def run(ctx):
     H = ctx.H
     install_set_order()
-    spec = gen_spec(H, FEAT)
+    if H.draw(4) == 3:
+        # grammar-expansion depthing: modelled where the documentation defines it (no lists, tuples, unions)
+        spec = gen_spec(H, features(**{**FEAT, "list": 0, "annlist": 0, "union": 0, "tuple": 0, "interval": 0}))
+        spec["expansion_depthing"] = True
+        ctx.stat("expansion_depthing_specs")
+    else:
+        spec = gen_spec(H, FEAT)
     ref = Ref(spec)
     s1 = ctx.S.draw(2**16)
     s2 = ctx.S.draw(2**16) or 1
